@@ -57,10 +57,9 @@ abbrev St := List (String × EP)
 def getEP (st : St) (n : String) : Option EP := (st.find? (·.1 = n)).map (·.2)
 def putEP (st : St) (n : String) (e : EP) : St := (n, e) :: st.filter (·.1 ≠ n)
 
-def finish (st : St) (n : String) (e : EP) (r : Res) (evs : List Ev) : St × String :=
-  let (e, evs') := settle e
-  let all := evs ++ evs'
-  (putEP st n e, showRes r ++ " | " ++ "; ".intercalate (all.map showEv))
+def run1 (st : St) (n : String) (e : EP) (op : Mux.Op) : St × String :=
+  let (e, r, evs) := applyOp e op
+  (putEP st n e, showRes r ++ " | " ++ "; ".intercalate (evs.map showEv))
 
 def parseIn : List String → Option WsIn
   | ["bin", h] => (ofHex h).map fun bs =>
@@ -93,62 +92,53 @@ def step (st : St) (line : String) : St × String :=
       match cmd, args with
       | "open", [req, host, port] =>
         match req.toNat?, ofHex host, port.toNat? with
-        | some req, some host, some port =>
-          let (e, evs) := appOpen e req host port
-          finish st n e .started evs
+        | some req, some host, some port => run1 st n e (.open req host port)
         | _, _, _ => (st, "bad-op")
-      | "accept", [] => let (e, r) := appAccept e; finish st n e r []
+      | "accept", [] => run1 st n e .accept
       | "write", [h, d] =>
         match h.toNat?, ofHex d with
-        | some h, some d => let (e, r) := appWrite e h d; finish st n e r []
+        | some h, some d => run1 st n e (.write h d)
         | _, _ => (st, "bad-op")
       | "writev", h :: ps =>
         match h.toNat?, ps.mapM ofHex with
-        | some h, some ps => let (e, r) := appWrite e h ps.flatten; finish st n e r []
+        | some h, some ps => run1 st n e (.write h ps.flatten)
         | _, _ => (st, "bad-op")
       | "read", [h, k] =>
         match h.toNat?, k.toNat? with
-        | some h, some k => let (e, r) := appRead e h k; finish st n e r []
+        | some h, some k => run1 st n e (.read h k)
         | _, _ => (st, "bad-op")
       | "shutdown", [h] =>
         match h.toNat? with
-        | some h => let (e, r) := appShutdown e h; finish st n e r []
+        | some h => run1 st n e (.shutdown h)
         | none => (st, "bad-op")
       | "dropstream", [h] =>
         match h.toNat? with
-        | some h => let (e, r) := appDropStream e h; finish st n e r []
+        | some h => run1 st n e (.dropStream h)
         | none => (st, "bad-op")
       | "dgsend", [fid, host, port, d] =>
         match fid.toNat?, ofHex host, port.toNat?, ofHex d with
         | some fid, some host, some port, some d =>
-          let (e, r) := appSendDgram e { fid := fid, host := host, port := port, data := d }
-          finish st n e r []
+          run1 st n e (.sendDgram { fid := fid, host := host, port := port, data := d })
         | _, _, _, _ => (st, "bad-op")
-      | "dgrecv", [] => let (e, r) := appRecvDgram e; finish st n e r []
+      | "dgrecv", [] => run1 st n e .recvDgram
       | "bindreq", [req, t, host, port] =>
         match req.toNat?, (if t = "1" then some BindType.stream else if t = "3" then some BindType.datagram else none),
               ofHex host, port.toNat? with
-        | some req, some bt, some host, some port =>
-          let (e, evs) := appBindReq e req bt host port
-          finish st n e .started evs
+        | some req, some bt, some host, some port => run1 st n e (.bindReq req bt host port)
         | _, _, _, _ => (st, "bad-op")
-      | "bindnext", [] => let (e, r) := appBindNext e; finish st n e r []
+      | "bindnext", [] => run1 st n e .bindNext
       | "bindreply", [k, a] =>
         match k.toNat? with
-        | some k => let (e, r) := appBindReply e k (a = "1"); finish st n e r []
+        | some k => run1 st n e (.bindReply k (a = "1"))
         | none => (st, "bad-op")
       | "binddrop", [k] =>
         match k.toNat? with
-        | some k => let (e, r) := appBindDrop e k; finish st n e r []
+        | some k => run1 st n e (.bindDrop k)
         | none => (st, "bad-op")
-      | "dropmux", [] => let (e, r) := appDropMux e; finish st n e r []
+      | "dropmux", [] => run1 st n e .dropMux
       | "deliver", w =>
-        -- nothing arrives any more once the source has ended or failed
-        if e.srcEnded || e.inbox.any (fun x => x == .eof || x == .err) then finish st n e .unit [] else
         match parseIn w with
-        -- a peer that sends Close then closes the connection: the source ends after the Close
-        | some (.msg .close) => finish st n { e with inbox := e.inbox ++ [.msg .close, .eof] } .unit []
-        | some w => finish st n { e with inbox := e.inbox ++ [w] } .unit []
+        | some w => run1 st n e (.deliver w)
         | none => (st, "bad-op")
       | "wstate", [h] =>
         match h.toNat? with
